@@ -594,6 +594,7 @@ type PartitionResponseFetchV0 struct {
 	Partition     int32   `json:"partition"`
 	ErrorCode     int16   `json:"errorCode"`
 	HighWatermark int64   `json:"highWatermark"`
+	RecordSetSize int32   `json:"recordSetSize"`
 	RecordSet     Records `json:"recordSet"`
 }
 
@@ -626,6 +627,7 @@ type PartitionResponseFetchV4 struct {
 	HighWatermark       int64                   `json:"highWatermark"`
 	LastStableOffset    int64                   `json:"lastStableOffset"`
 	AbortedTransactions []AbortedTransactionsV4 `json:"abortedTransactions"`
+	RecordSetSize       int32                   `json:"recordSetSize"`
 	RecordSet           Records                 `json:"recordSet"`
 }
 
@@ -648,6 +650,7 @@ type PartitionResponseFetchV5 struct {
 	LastStableOffset    int64                   `json:"lastStableOffset"`
 	LogStartOffset      int64                   `json:"logStartOffset"`
 	AbortedTransactions []AbortedTransactionsV4 `json:"abortedTransactions"`
+	RecordSetSize       int32                   `json:"recordSetSize"`
 	RecordSet           Records                 `json:"recordSet"`
 }
 
@@ -680,6 +683,7 @@ type PartitionResponseFetchV11 struct {
 	LogStartOffset       int64                   `json:"logStartOffset"`
 	AbortedTransactions  []AbortedTransactionsV4 `json:"abortedTransactions"`
 	PreferredReadReplica int32                   `json:"preferredReadReplica"`
+	RecordSetSize        int32                   `json:"recordSetSize"`
 	RecordSet            Records                 `json:"recordSet"`
 }
 
